@@ -26,7 +26,7 @@ func init() {
 		Text: "the link-expansion loop is bounded: every splice of a link target (ReplacePart) is dominated by the not-exceeded branch of a counter that is incremented on each link and compared with a constant, whose exceeded branch returns TooManySymlinks; the constant is the kernel's MAXSYMLINKS = 40",
 		Run:  c04Budget})
 	register(&Rule{ID: "C04.follow", Floor: 2,
-		Text: "the walk returns a symbolic link as the found node only in no-follow mode (slmLstat), and after an absolute link target it restarts from the root the walk started from (the view's / volume's root), not from another root",
+		Text: "the walk returns a symbolic link as the found node only in no-follow mode (slmLstat), and after an absolute link target it restarts from a root selected as the starting root was: the view's root, or the root of the volume that the new path names (looked up again in the volumes map after the splice) - not from a fixed root, and not from the volume of the link when the target names another one",
 		Also: []string{"C17", "C11"},
 		Run:  c04Follow})
 	register(&Rule{ID: "C04.store", Floor: 2,
@@ -329,13 +329,66 @@ func c04Follow(rc *RuleCtx) {
 			}
 		}
 	}
-	switch {
-	case initial == nil:
+	if initial == nil {
 		rc.bad(cons, f.Pos(), "no initial assignment of the cursor dominates the walk")
-	case restart == nil:
+		return
+	}
+	if restart == nil {
 		rc.bad(cons, f.Pos(), "after ReplacePart reports a restart the cursor is not reset")
-	case sym(restart.Val) != sym(initial.Val) && !sameValue(restart.Val, initial.Val):
-		rc.bad(cons, restart.Pos(), "after an absolute link target the walk restarts from "+prettyVal(restart.Val, 0)+" although it started from "+prettyVal(initial.Val, 0)+": on a file system with several roots (volumes, views) the link resolves in another tree")
+		return
+	}
+	var replaceCall *ssa.Call
+	for _, fa := range factsAt(restart.Block()) {
+		if c, truth, ok := callFact(fa, "ReplacePart"); ok && truth && c != nil {
+			replaceCall = c
+		}
+	}
+	isVolLookup := func(v ssa.Value) *ssa.Lookup {
+		var l *ssa.Lookup
+		switch x := v.(type) {
+		case *ssa.Extract:
+			l, _ = x.Tuple.(*ssa.Lookup)
+		case *ssa.Lookup:
+			l = x
+		}
+		if l == nil {
+			return nil
+		}
+		if ld, ok := stripCT(l.X).(*ssa.UnOp); ok && ld.Op == token.MUL {
+			if fa, ok := ld.X.(*ssa.FieldAddr); ok && fieldName(fa.X.Type(), fa.Field) == "volumes" {
+				return l
+			}
+		}
+		return nil
+	}
+	initO := map[string]bool{}
+	initHasVol := false
+	for _, o := range originsOf(initial.Val) {
+		initO[sym(o)] = true
+		if isVolLookup(o) != nil {
+			initHasVol = true
+		}
+	}
+	bad = ""
+	reselected := false
+	for _, o := range originsOf(restart.Val) {
+		if l := isVolLookup(o); l != nil {
+			if replaceCall != nil && domInstr(replaceCall, l) {
+				reselected = true
+			}
+			continue
+		}
+		if !initO[sym(o)] {
+			bad = "after an absolute link target the walk restarts from " + prettyVal(o, 0) + ", which is neither the root it started from nor the root of a volume looked up by name: on a file system with several roots (volumes, views) the link resolves in another tree"
+		}
+	}
+	switch {
+	case bad != "":
+		rc.bad(cons, restart.Pos(), bad)
+	case initHasVol && !reselected:
+		rc.bad(cons, restart.Pos(), "the starting root is selected by the volume name of the path, but after an absolute link target - which can name another volume - the walk restarts without selecting the root again (no lookup of the volumes map after ReplacePart): a link to another volume resolves on the volume of the link")
+	case initHasVol:
+		rc.good(cons, restart.Pos(), "the root is selected again by the volume name of the new path; otherwise the root the walk started from")
 	default:
 		rc.good(cons, restart.Pos(), "restart value is the value the cursor started from ("+prettyVal(initial.Val, 0)+")")
 	}
